@@ -18,6 +18,9 @@ def tv_job(job):
     if pre:
         ct = pre(ct, spec) or ct
     kw = dict(job.get('compile_kw', {}))
+    if job.get('backend') == 'fortran':
+        from . import f2pystub
+        f2pystub.install()
     try:
         c = tv.compile_template(ct, backend=job.get('backend', 'default'), vectorize=job['vectorize'], **kw)
     except tv.CompileError as e:
